@@ -1,4 +1,5 @@
 """C04 — syntax rules the parser claims to enforce are enforced, with the right error (DESIGN.md 6/C04)."""
+import os
 import ast, itertools, re
 from ..engine import Property, Failure
 from ..known import open_ids
@@ -10,6 +11,46 @@ from ..gen.layout import render
 # Each rule yields snippets: (kind, text, (span_start, span_end) of the offending construct inside text, expected)
 # kind: 'expr' (an expression), 'stmt' (complete statement lines, unindented), 'tail' (must end the file)
 # expected: predicate over the adapter's error JSON {'t':..., 'e':..., ...}
+
+
+_EMOJI_PRES = []
+
+
+def emoji_presentation(cp):
+    """Emoji_Presentation=Yes in the table the lexer consults: such a character is accepted as a name on purpose
+    (an extension of this parser), so it is outside the rule 'a character that cannot begin any token'"""
+    if not _EMOJI_PRES:
+        for line in open(os.path.join(os.path.dirname(os.path.dirname(os.path.abspath(__file__))), 'data', 'emoji_presentation.txt')):
+            if '..' in line and not line.startswith('#'):
+                a, b = line.strip().split('..')
+                _EMOJI_PRES.append((int(a, 16), int(b, 16)))
+    return any(a <= cp <= b for a, b in _EMOJI_PRES)
+
+
+NO_TOKEN_BLOCKS = [(0x00, 0x20), (0x7f, 0xc0), (0x2000, 0x2070), (0x20a0, 0x20c0), (0x2100, 0x2150), (0x2190, 0x2200), (0x2200, 0x2300), (0x2300, 0x2400), (0x2500, 0x2600),
+                   (0x2600, 0x2700), (0x2700, 0x27c0), (0x2b00, 0x2c00), (0x3000, 0x3040), (0xfe00, 0xfe10), (0xff00, 0xff20), (0x1f000, 0x1f100), (0x1f300, 0x1f650),
+                   (0x1f680, 0x1f700), (0x1f900, 0x1fa00), (0xe0000, 0xe0080), (0xd7f0, 0xd800), (0xe000, 0xe010), (0xfff0, 0x10000), (0x10fff0, 0x110000), (0x80, 0x110000)]
+
+
+def gen_no_token_char(cs):
+    """a code point that can begin no token: not an identifier start (XID_Start after NFKC, '_'), not a digit, quote,
+    operator, blank or line break - drawn from symbol, punctuation, control, format, private-use and unassigned areas"""
+    import unicodedata
+    for _ in range(8):
+        a, b = cs.pick(NO_TOKEN_BLOCKS)
+        cp = a + cs.choice(b - a)
+        if 0xD800 <= cp <= 0xDFFF:
+            continue
+        ch = chr(cp)
+        if ch in ' \t\n\r\x0c' or ch.isidentifier() or unicodedata.normalize('NFKC', ch)[:1].isidentifier() or ('a' + ch).isidentifier() \
+                or ('a' + unicodedata.normalize('NFKC', ch)).isidentifier():
+            continue
+        if ch in '()[]{}:,;.=<>+-*/%@&|^~!#\'"\\' or ch.isdigit() or emoji_presentation(cp):
+            continue
+        if unicodedata.normalize('NFKC', ch) != ch and not all(0x20 < ord(c) < 0x7f and c in '$?`' for c in unicodedata.normalize('NFKC', ch)):
+            continue   # compatibility forms of operators / blanks: what they become is another rule's business
+        return ch
+    return '$'
 
 
 def lex(e, *names):
@@ -74,7 +115,7 @@ def rules(cs, g):
     out.append(('R04_dedent_to_unknown_level', 'stmt', 'if %s:\n        %s\n    %s\n' % (a, b, c), None, lambda e: lex(e, 'IndentationError'), False))
     out.append(('R05_tab_space_ambiguity', 'stmt', 'if %s:\n        %s\n\t%s\n' % (a, b, c), None, lambda e: e.get('tab_err') is True, False))
     out.append(('R06_tab_after_space', 'stmt', 'if %s:\n  \t%s\n' % (a, b), None, lambda e: lex(e, 'TabsAfterSpaces'), 'nogate'))
-    bad = cs.pick(['$', '?', '`', '!', '\x00', '\x7f', '€', '§', '\x1b', '\xa0', '\u2003', '\u200b'])
+    bad = cs.pick(['$', '?', '`', '!', '\x00', '\x7f', '€', '§', '\x1b', '\xa0', '\u2003', '\u200b']) if cs.bool(100) else gen_no_token_char(cs)
     t = '%s %s %s' % (a, bad, b)
     out.append(('R07_character_that_begins_no_token', 'expr', t, (len(a) + 1, len(a) + 1 + len(bad)), lambda e: lex(e, 'UnrecognizedToken'), False))
     t = '%s + \\ %s' % (a, b)
